@@ -257,10 +257,23 @@ class Prover:
         return r != z3.unsat
 
     def prove(self, pc, goal, timeout_ms=None):
-        """-> (status, detail, seconds)"""
-        s = self._solver(timeout_ms or self.timeout_ms, pc, [z3.Not(goal)])
+        """-> (status, detail, seconds).  The sequence solver is unstable on identical input, so the
+        budget is split over several random seeds; `unsat` from any attempt is a proof, `sat`
+        from any attempt is a counter-model, otherwise undecided."""
+        total = timeout_ms or self.timeout_ms
+        plan = [(0, total // 5), (7, total // 5), (23, total // 5), (101, total - 3 * (total // 5))]
         t = time.time()
-        r = s.check()
+        r = None
+        s = None
+        for seed, budget in plan:
+            s = self._solver(max(budget, 500), pc, [z3.Not(goal)])
+            s.set("random_seed", seed)
+            if seed:
+                s.set("smt.random_seed", seed)
+                s.set("smt.phase_selection", seed % 6)
+            r = s.check()
+            if r != z3.unknown:
+                break
         dt = time.time() - t
         self.time += dt
         self.queries += 1
@@ -271,8 +284,9 @@ class Prover:
                 m = s.model()
                 detail = "counter-model: " + ", ".join(f"{d.name()}={m[d]}" for d in list(m.decls())[:40])
             except Exception:
+                m = None
                 detail = "sat"
-            self.last_model = m if r == z3.sat else None
+            self.last_model = m
             return FAILED, detail[:3000], dt
         return UNDECIDED, "solver: " + s.reason_unknown(), dt
 
@@ -1108,9 +1122,25 @@ class FuncVC:
                 status, detail, dt = self.prover.prove(pc, goal)
                 if status != DISCHARGED:
                     detail = f"path[{' '.join(path.labels)}] " + detail
+                if status == UNDECIDED and hasattr(self.theory, "refute"):
+                    # counter-model search on the same VC (recursive definitions, bounded lengths)
+                    t_r = time.time()
+                    try:
+                        mdl = self.theory.refute(self.prover, pc, goal)
+                    except Exception as e:
+                        mdl = None
+                        detail += f" [refutation pass error: {e!r}]"
+                    dt += time.time() - t_r
+                    if mdl is not None:
+                        status = FAILED
+                        self.prover.last_model = mdl
+                        detail = (f"path[{' '.join(path.labels)}] counter-model of the VC found with the spec functions "
+                                  "unfolded (sequence lengths <= 3): " +
+                                  ", ".join(f"{d.name()}={mdl[d]}" for d in list(mdl.decls())[:30]
+                                            if d.arity() == 0))[:3000]
                 if status == FAILED and self.contract.replayer is not None and self.prover.last_model is not None:
                     try:
-                        rp = self.contract.replayer(self.prover.last_model, ex.args, self)
+                        rp = self.contract.replayer(self.prover.last_model, ex.args, ex)
                     except Exception as e:      # a replay problem is never a violation
                         rp = None
                         detail += f" [replay error: {e!r}]"
